@@ -26,41 +26,41 @@ func configs(thorough bool) (pdiff.Config, []pdiff.Config, []pdiff.Config) {
 
 	var all []pdiff.Config
 
-	allocs := []int{0}
 	if thorough {
-		allocs = []int{0, 16, 1024}
-	}
-
-	for _, alloc := range allocs {
-		for opt := 0; opt <= 3; opt++ {
-			for bits := 0; bits < 8; bits++ {
-				c := pdiff.Config{Opt: opt, Reg: bits & 1, Fold: (bits >> 1) & 1, Cache: (bits >> 2) & 1, Alloc: alloc}
-				if c == base {
-					continue
+		// The full product.
+		for _, alloc := range []int{0, 16, 1024} {
+			for opt := 0; opt <= 3; opt++ {
+				for bits := 0; bits < 8; bits++ {
+					c := pdiff.Config{Opt: opt, Reg: bits & 1, Fold: (bits >> 1) & 1, Cache: (bits >> 2) & 1, Alloc: alloc}
+					if c != base {
+						all = append(all, c)
+					}
 				}
-
-				// Quick: all off, all on and every single switch on at each
-				// optimizer level; every single switch off at level 2.
-				on := c.Reg + c.Fold + c.Cache
-				if !thorough && on == 2 && opt != 2 {
-					continue
-				}
-
-				all = append(all, c)
 			}
 		}
-	}
-
-	if !thorough {
-		// Allocation sizes: minimum and large, at both ends of the settings.
-		for _, alloc := range []int{16, 1024} {
-			all = append(all, pdiff.Config{Opt: 0, Alloc: alloc}, pdiff.Config{Opt: 2, Reg: 1, Fold: 1, Cache: 1, Alloc: alloc})
+	} else {
+		// Single flips: each optimizer level with the switches off; each
+		// switch on alone; all on (the shipped defaults) at levels 0-2; each
+		// switch off alone at level 2; the smallest and a large symbol
+		// allocation at two corners.
+		for opt := 1; opt <= 3; opt++ {
+			all = append(all, pdiff.Config{Opt: opt})
 		}
+
+		all = append(all, pdiff.Config{Reg: 1}, pdiff.Config{Fold: 1}, pdiff.Config{Cache: 1})
+
+		for opt := 0; opt <= 2; opt++ {
+			all = append(all, pdiff.Config{Opt: opt, Reg: 1, Fold: 1, Cache: 1})
+		}
+
+		all = append(all, pdiff.Config{Opt: 2, Fold: 1, Cache: 1}, pdiff.Config{Opt: 2, Reg: 1, Cache: 1}, pdiff.Config{Opt: 2, Reg: 1, Fold: 1})
+		all = append(all, pdiff.Config{Alloc: 16}, pdiff.Config{Opt: 2, Reg: 1, Fold: 1, Cache: 1, Alloc: 1024})
 	}
 
 	sort.SliceStable(all, func(i, j int) bool { return all[i].Deviations() < all[j].Deviations() })
 
 	// The corpus runs through `ego test`, which has no allocation option.
+	// Quick: each optimizer level with the switches off and with all on.
 	var corpus []pdiff.Config
 
 	for _, c := range all {
@@ -68,7 +68,7 @@ func configs(thorough bool) (pdiff.Config, []pdiff.Config, []pdiff.Config) {
 			continue
 		}
 
-		if thorough || c.Reg+c.Fold+c.Cache == 0 || c.Reg+c.Fold+c.Cache == 3 {
+		if on := c.Reg + c.Fold + c.Cache; thorough || on == 0 || on == 3 {
 			corpus = append(corpus, c)
 		}
 	}
@@ -95,7 +95,7 @@ func main() {
 
 	r.Rule(fmt.Sprintf("programs: every statement form (16 assignment/increment shapes, comparisons, constant expressions, loops, package constants, globals, closures, try/catch, collections, structs, strings, dynamic typing, control flow, scopes, aborting programs) over every numeric type and the listed initial values/constants%s; each program x %d configurations (optimizer 0-3 x registers/constfold/globalcache %s) x 3 type modes against the baseline (optimizer 0, all three off); plus every test block of tests/**.ego under %d configurations x 3 modes. distinct = (mode, program) that produces output or an error under the baseline, and (mode, corpus test block) stable in two baseline runs",
 		map[bool]string{false: "", true: " and every ordered pair of statement forms on one variable"}[r.Thorough()],
-		len(all), map[bool]string{false: "all off, all on, each one on, and at level 2 each one off; symbol allocation 16 and 1024 at two corners", true: "in all 8 combinations x symbol allocation {default,16,1024}"}[r.Thorough()], len(corpus)))
+		len(all), map[bool]string{false: "as single flips: each level with the switches off, each switch on alone, all on at levels 0-2, each switch off alone at level 2; symbol allocation 16 and 1024 at two corners", true: "in all 8 combinations x symbol allocation {default,16,1024}"}[r.Thorough()], len(corpus)))
 	r.Assume("the batch worker repeats ego's main() in one process per configuration; state leaking between its items can hide a difference but cannot raise one, because every disagreement is re-run in fresh `ego run` processes (twice per side) before it is reported",
 		"error messages are compared with source line numbers normalised",
 		"corpus test blocks whose text differs between two baseline runs (timings, ports, environment) are not compared; tests/{ai,server,sql,tables} are not run")
